@@ -458,3 +458,10 @@ func (c *Cov) Note(inputHash string, sched iosim.Schedule, hasDump bool, extra s
 		c.Distinct[core.Hash([]byte(inputHash), []byte(sched.Key()), []byte(extra))]++
 	}
 }
+
+func clipS(s string, n int) string {
+	if len(s) > n {
+		return s[:n] + "…"
+	}
+	return s
+}
